@@ -26,6 +26,17 @@ pub struct DeepS { pub id: u32, pub name: String }
 pub struct CopyDeep { pub a: u16, pub b: u64 }
 impl MaxSizeOf for CopyDeep { fn max_size_of() -> usize { 8 } }
 
+/// deep-copy (explicitly, and implicitly) structs that are Copy, repr(C), made of zero-copy fields
+#[derive(Epserde, Clone, Copy, Debug)]
+#[repr(C)]
+#[deep_copy]
+pub struct CopyDeepC { pub a: u16, pub b: u64 }
+impl MaxSizeOf for CopyDeepC { fn max_size_of() -> usize { 8 } }
+#[derive(Epserde, Clone, Copy, Debug)]
+#[repr(C)]
+pub struct CopyPlainC { pub a: u16, pub b: u64 }
+impl MaxSizeOf for CopyPlainC { fn max_size_of() -> usize { 8 } }
+
 #[derive(Epserde, Clone, Copy, Debug)]
 #[repr(C)]
 #[zero_copy]
@@ -51,6 +62,8 @@ BAD = [
     ("boxslice", "Box<[u8]>", "vec![1u8, 2].into_boxed_slice()", False),
     ("deepstruct", "DeepS", "DeepS { id: 1, name: String::from(\"n\") }", False),
     ("copydeep", "CopyDeep", "CopyDeep { a: 1, b: 2 }", True),
+    ("copydeepc", "CopyDeepC", "CopyDeepC { a: 1, b: 2 }", True),
+    ("copyplainc", "CopyPlainC", "CopyPlainC { a: 1, b: 2 }", True),
     ("staticslice", "&'static [u8]", "&[1u8, 2, 3]", True),
     ("optionu8", "Option<u8>", "Some(3u8)", True),
     ("vecvec", "Vec<Vec<u16>>", "vec![vec![1u16]]", False),
@@ -185,7 +198,8 @@ def family(tier):
                     out.append((f"bad.{name}.f{i}.{label}.{dl}", PRELUDE + item + MAIN % {"ctor": ctor, "ty": name}, "bad"))
         # attribute mutations on the valid field set
         for label, attrs in [("norepr", ["zero_copy"]), ("fusedrepr", ["repr(C, align(8))", "zero_copy"]), ("reprrust", ["repr(Rust)", "zero_copy"]),
-                             ("both", ["repr(C)", "zero_copy", "deep_copy"]), ("reprtransparent", ["repr(transparent)", "zero_copy"]), ("packed", ["repr(packed)", "zero_copy"])]:
+                             ("both", ["repr(C)", "zero_copy", "deep_copy"]), ("reprtransparent", ["repr(transparent)", "zero_copy"]), ("packed", ["repr(packed)", "zero_copy"]),
+                             ("alignonly", ["repr(align(8))", "zero_copy"]), ("packed2only", ["repr(packed(2))", "zero_copy"]), ("alignthenzero", ["zero_copy", "repr(align(16))"])]:
             if label == "reprtransparent" and len(fields) != 1:
                 continue
             item, ctor = struct_item(name, attrs, "Epserde, Clone, Copy, Debug", fields, style)
